@@ -20,6 +20,7 @@ so that locks can persist across ldlm server restarts.
 package store
 
 import (
+	"bytes"
 	"fmt"
 	"io"
 	"os"
@@ -190,6 +191,10 @@ func marshalLocks(m map[string][]cl.Lock) []byte {
 
 // Unmarshal byte slice to client lock map
 func unmarshalLocks(b []byte) (map[string][]cl.Lock, error) {
+	if err := checkEncoding(b); err != nil {
+		return nil, err
+	}
+
 	// See marshalLocks() for file format notes
 	n, m, err := bstd.UnmarshalMap[string, []cl.Lock](0, b, bstd.UnmarshalString, func(n int, b []byte) (int, []cl.Lock, error) {
 		n, s, err := bstd.UnmarshalSlice[cl.Lock](n, b, unmarshalLock)
@@ -200,4 +205,88 @@ func unmarshalLocks(b []byte) (map[string][]cl.Lock, error) {
 	}
 
 	return m, benc.VerifyMarshal(n, b)
+}
+
+// Every slice and map is followed by 4 terminator bytes
+var terminator = []byte{1, 1, 1, 1}
+
+// checkEncoding walks the marshaled client lock map in b and verifies that every count and length
+// in it is consistent with the number of bytes that follow it. Unmarshaling data that passes this
+// check can not panic or allocate memory out of proportion to len(b), so a damaged state file
+// results in an error.
+func checkEncoding(b []byte) error {
+	// A map entry is at least an empty string (1 byte) and an empty slice (1 byte + terminator)
+	n, entries, err := checkCount(0, b, 2+len(terminator))
+	if err != nil {
+		return err
+	}
+	for ; entries > 0; entries-- {
+		// Session ID
+		if n, err = checkString(n, b); err != nil {
+			return err
+		}
+		// A client lock is at least 2 empty strings (1 byte each) and an int32
+		var locks uint
+		if n, locks, err = checkCount(n, b, 2+bstd.SizeInt32()); err != nil {
+			return err
+		}
+		for ; locks > 0; locks-- {
+			// Name
+			if n, err = checkString(n, b); err != nil {
+				return err
+			}
+			// Key
+			if n, err = checkString(n, b); err != nil {
+				return err
+			}
+			// Size
+			if n, err = bstd.SkipInt32(n, b); err != nil {
+				return err
+			}
+		}
+		if n, err = checkTerminator(n, b); err != nil {
+			return err
+		}
+	}
+	if n, err = checkTerminator(n, b); err != nil {
+		return err
+	}
+	return benc.VerifyMarshal(n, b)
+}
+
+// checkCount reads the element count of a slice or map at offset n and verifies that the bytes
+// following it can hold that many elements of at least minSize bytes each.
+func checkCount(n int, b []byte, minSize int) (int, uint, error) {
+	n, count, err := bstd.UnmarshalUint(n, b)
+	if err != nil {
+		return 0, 0, err
+	}
+	if count > uint(len(b)-n)/uint(minSize) {
+		return 0, 0, benc.ErrBufTooSmall
+	}
+	return n, count, nil
+}
+
+// checkString verifies that the string at offset n lies within b and returns the offset after it.
+func checkString(n int, b []byte) (int, error) {
+	n, length, err := bstd.UnmarshalUint(n, b)
+	if err != nil {
+		return 0, err
+	}
+	if length > uint(len(b)-n) {
+		return 0, benc.ErrBufTooSmall
+	}
+	return n + int(length), nil
+}
+
+// checkTerminator verifies that the terminator of a slice or map is at offset n and returns the
+// offset after it.
+func checkTerminator(n int, b []byte) (int, error) {
+	if len(b)-n < len(terminator) {
+		return 0, benc.ErrBufTooSmall
+	}
+	if !bytes.Equal(b[n:n+len(terminator)], terminator) {
+		return 0, benc.ErrVerifyMarshal
+	}
+	return n + len(terminator), nil
 }
